@@ -25,6 +25,8 @@ fi
 go build $MODFLAG -o "$BIN/fsrewrite" ./cmd/fsrewrite
 "$BIN/fsrewrite" "$REPO/db/fs" "$SCR/fs" "$SCR/overlay.json"
 go build $MODFLAG -tags verif -overlay "$SCR/overlay.json" -o "$BIN/visim" ./cmd/visim
+# the repository's own disassembler executable (dev/disasm): C15 runs it on long records
+(cd "$REPO" && go build -o "$BIN/vise-disasm" ./dev/disasm)
 if [ "${1:-}" = "C19" ] || [ "${1:-}" = "all" ]; then
   go build $MODFLAG -tags verif -race -overlay "$SCR/overlay.json" -o "$BIN/visim-race" ./cmd/visimrace
 fi
